@@ -113,7 +113,11 @@ def valid_schema(rng, idx=0, size=None):
     if rng.random() < 0.4:
         out += [f"RULE r_{idx} FOR ({ents[0]});", "WHERE", f"  wr1 : SIZEOF(QUERY(q <* {ents[0]} | TRUE)) >= 0;", "END_RULE;"]
     out.append("END_SCHEMA;" + (f" -- {nm}" if rng.random() < 0.3 else ""))
-    return ("\n".join(out) + "\n").encode()
+    data = ("\n".join(out) + "\n").encode()
+    if rng.random() < 0.35:     # a second schema with a select that reaches every kind of underlying type along several paths
+        omit = tuple(i for i in range(8) if rng.random() < 0.15)
+        data += wide_select(rng.choice([2, 2, 3]), omit, rng.choice([0, 1, 2]), name=f"w{idx}", rng=rng)
+    return data
 
 
 def _word(rng, n):
@@ -447,9 +451,155 @@ FAMILIES = {
     "many_supertypes": many_supertypes, "many_lex_errors": many_lex_errors, "many_undefined": many_undefined,
     "long_error_args": long_error_args, "non_ascii": non_ascii, "nul_bytes": nul_bytes,
 }
+def subtype_chain(n):
+    """valid: e0 <- e1 <- ... <- e(n-1), each a subtype of the previous one"""
+    return _sch("".join(f"ENTITY e{i}" + (f" SUBTYPE OF (e{i - 1})" if i else "") + f";\n  a{i} : INTEGER;\nEND_ENTITY;\n" for i in range(n)))
+
+
+def _subtype_cycle(n):
+    names = [f"e{i}" for i in range(max(n, 1))]
+    k = len(names)
+    return _sch("".join(f"ENTITY {names[i]} SUBTYPE OF ({names[(i + 1) % k]});\n  a{i} : INTEGER;\nEND_ENTITY;\n" for i in range(k)) +
+                "ENTITY leaf SUBTYPE OF (e0);\n  al : INTEGER;\nEND_ENTITY;\n")
+
+
+FAMILIES["subtype_chain"] = subtype_chain
+FAMILIES["subtype_cycle"] = _subtype_cycle
 for _r in IDENT_ROLES:
     FAMILIES["ident_" + _r] = (lambda r: (lambda n: long_ident(r, n)))(_r)
 
 
 def shape(family, n):
     return FAMILIES[family](n)
+
+
+# ------------------------------------------------------------------ syntactically valid but contradictory declarations
+def _ents(spec):
+    """spec: list of (name, [supertypes]) -> ENTITY declarations"""
+    return "".join(f"ENTITY {n}" + (f"\n  SUBTYPE OF ({', '.join(sup)})" if sup else "") + f";\n  at_{n} : INTEGER;\nEND_ENTITY;\n"
+                   for n, sup in spec)
+
+
+def subtype_cycle(n):
+    """n >= 1 entities whose SUBTYPE OF relation is one cycle (n = 1: an entity naming itself)"""
+    names = [f"e{i}" for i in range(n)]
+    return _sch(_ents([(names[i], [names[(i + 1) % n]]) for i in range(n)]))
+
+
+CONTRADICTIONS = {
+    "self_subtype": lambda: _sch(_ents([("a", ["a"])])),
+    "subtype_cycle_2": lambda: subtype_cycle(2),
+    "subtype_cycle_3": lambda: subtype_cycle(3),
+    "subtype_cycle_a_c_b": lambda: _sch(_ents([("a", ["c"]), ("b", ["a"]), ("c", ["b"])])),
+    "subtype_cycle_with_outside_ancestor": lambda: _sch(_ents([("root", []), ("a", ["root", "c"]), ("b", ["a"]), ("c", ["b"]), ("leaf", ["c"])])),
+    "subtype_cycle_behind_sibling": lambda: _sch(_ents([("shared", []), ("a", ["shared", "b"]), ("b", ["shared", "a"])])),
+    "subtype_cycle_declared_both_ways": lambda: _sch(
+        "ENTITY a SUPERTYPE OF (ONEOF (b)) SUBTYPE OF (b);\n  x : INTEGER;\nEND_ENTITY;\n"
+        "ENTITY b SUPERTYPE OF (ONEOF (a)) SUBTYPE OF (a);\n  y : INTEGER;\nEND_ENTITY;\n"),
+    "subtype_cycle_long": lambda: subtype_cycle(40),
+    "supertype_of_self": lambda: _sch("ENTITY a SUPERTYPE OF (a);\n  x : INTEGER;\nEND_ENTITY;\n"),
+    "select_self": lambda: _sch("TYPE s1 = SELECT (s1);\nEND_TYPE;\nENTITY a;\n  v : s1;\nEND_ENTITY;\n"),
+    "select_cycle_2": lambda: _sch("TYPE s1 = SELECT (s2);\nEND_TYPE;\nTYPE s2 = SELECT (s1);\nEND_TYPE;\nENTITY a;\n  v : s1;\nEND_ENTITY;\n"),
+    "select_cycle_3_with_entity": lambda: _sch("ENTITY a;\n  v : s1;\nEND_ENTITY;\nTYPE s1 = SELECT (a, s2);\nEND_TYPE;\nTYPE s2 = SELECT (a, s3);\nEND_TYPE;\n"
+                                               "TYPE s3 = SELECT (s1, a);\nEND_TYPE;\n"),
+    "select_cycle_behind_sibling": lambda: _sch("ENTITY a;\n  v : s1;\nEND_ENTITY;\nTYPE sh = SELECT (a);\nEND_TYPE;\nTYPE s1 = SELECT (sh, s2);\nEND_TYPE;\n"
+                                                "TYPE s2 = SELECT (sh, s1);\nEND_TYPE;\n"),
+    "type_self": lambda: _sch("TYPE t = t;\nEND_TYPE;\n"),
+    "type_cycle_2": lambda: _sch("TYPE t1 = t2;\nEND_TYPE;\nTYPE t2 = t1;\nEND_TYPE;\nENTITY a;\n  v : t1;\nEND_ENTITY;\n"),
+    "aggregate_of_self": lambda: _sch("TYPE t = LIST OF t;\nEND_TYPE;\nENTITY a;\n  v : t;\nEND_ENTITY;\n"),
+    "undefined_supertype": lambda: _sch(_ents([("a", ["nosuch"])])),
+    "undefined_subtype": lambda: _sch("ENTITY a SUPERTYPE OF (ONEOF (nosuch, b));\nEND_ENTITY;\nENTITY b SUBTYPE OF (a);\nEND_ENTITY;\n"),
+    "undefined_attr_type": lambda: _sch("ENTITY a;\n  v : nosuch;\n  w : LIST OF nosuch2;\nEND_ENTITY;\n"),
+    "undefined_select_item": lambda: _sch("TYPE s1 = SELECT (nosuch, a);\nEND_TYPE;\nENTITY a;\n  v : s1;\nEND_ENTITY;\n"),
+    "undefined_in_where": lambda: _sch("ENTITY a;\n  v : INTEGER;\nWHERE\n  wr1 : nosuch_fn(v) > nosuch_var;\nEND_ENTITY;\n"),
+    "undefined_in_derive": lambda: _sch("ENTITY a;\n  v : INTEGER;\nDERIVE\n  d : INTEGER := SELF\\nosuch.x + v;\nEND_ENTITY;\n"),
+    "undefined_inverse": lambda: _sch("ENTITY a;\n  v : INTEGER;\nINVERSE\n  i : SET OF nosuch FOR v;\n  j : SET OF a FOR nosuch_attr;\nEND_ENTITY;\n"),
+    "duplicate_entity": lambda: _sch(_ents([("a", []), ("a", [])])),
+    "duplicate_entity_type": lambda: _sch(_ents([("a", [])]) + "TYPE a = INTEGER;\nEND_TYPE;\n"),
+    "duplicate_attribute": lambda: _sch("ENTITY a;\n  v : INTEGER;\n  v : REAL;\nEND_ENTITY;\n"),
+    "duplicate_enum_item": lambda: _sch("TYPE en = ENUMERATION OF (x, y, x);\nEND_TYPE;\nTYPE en2 = ENUMERATION OF (x, z);\nEND_TYPE;\nENTITY a;\n  v : en;\nEND_ENTITY;\n"),
+    "duplicate_inherited_attr": lambda: _sch("ENTITY a;\n  v : INTEGER;\nEND_ENTITY;\nENTITY b SUBTYPE OF (a);\n  v : INTEGER;\nEND_ENTITY;\n"),
+    "duplicate_schema": lambda: b"SCHEMA s;\nENTITY a;\nEND_ENTITY;\nEND_SCHEMA;\nSCHEMA s;\nENTITY b;\nEND_ENTITY;\nEND_SCHEMA;\n",
+    "entity_as_underlying_type": lambda: _sch(_ents([("a", [])]) + "TYPE t = a;\nEND_TYPE;\nENTITY b;\n  v : t;\nEND_ENTITY;\n"),
+    "type_as_supertype": lambda: _sch("TYPE t = INTEGER;\nEND_TYPE;\nENTITY a SUBTYPE OF (t);\nEND_ENTITY;\n"),
+    "entity_as_select_of_itself_attr": lambda: _sch("ENTITY a;\n  v : a;\n  w : LIST [1:?] OF a;\nEND_ENTITY;\n"),
+    "use_missing_schema": lambda: b"SCHEMA s;\nUSE FROM nosuch;\nENTITY a;\nEND_ENTITY;\nEND_SCHEMA;\n",
+    "use_missing_schema_items": lambda: b"SCHEMA s;\nUSE FROM nosuch (x, y AS z);\nENTITY a SUBTYPE OF (x);\nEND_ENTITY;\nEND_SCHEMA;\n",
+    "reference_missing_schema": lambda: b"SCHEMA s;\nREFERENCE FROM nosuch;\nENTITY a;\n  v : thing;\nEND_ENTITY;\nEND_SCHEMA;\n",
+    "reference_missing_schema_items": lambda: b"SCHEMA s;\nREFERENCE FROM nosuch (f AS g);\nENTITY a;\nEND_ENTITY;\nEND_SCHEMA;\n",
+    "use_missing_item": lambda: b"SCHEMA lib;\nENTITY a;\nEND_ENTITY;\nEND_SCHEMA;\nSCHEMA s;\nUSE FROM lib (a, nosuch);\nENTITY b SUBTYPE OF (a);\nEND_ENTITY;\nEND_SCHEMA;\n",
+    "reference_missing_item": lambda: b"SCHEMA lib;\nENTITY a;\nEND_ENTITY;\nEND_SCHEMA;\nSCHEMA s;\nREFERENCE FROM lib (nosuch AS n2);\nENTITY b;\n  v : n2;\nEND_ENTITY;\nEND_SCHEMA;\n",
+    "import_through_failed_use": lambda: b"SCHEMA lib;\nUSE FROM nosuch;\nENTITY a;\nEND_ENTITY;\nEND_SCHEMA;\nSCHEMA s;\nUSE FROM lib (a);\nENTITY b SUBTYPE OF (a);\nEND_ENTITY;\nEND_SCHEMA;\n",
+    "import_missing_through_failed_use": lambda: b"SCHEMA lib;\nUSE FROM nosuch;\nENTITY a;\nEND_ENTITY;\nEND_SCHEMA;\nSCHEMA s;\nUSE FROM lib (zz);\nENTITY b;\n  v : zz;\nEND_ENTITY;\nEND_SCHEMA;\n",
+    "reference_through_failed_use": lambda: b"SCHEMA lib;\nUSE FROM nosuch;\nENTITY a;\nEND_ENTITY;\nEND_SCHEMA;\nSCHEMA s;\nREFERENCE FROM lib (zz);\nENTITY b;\n  v : zz;\nEND_ENTITY;\nEND_SCHEMA;\n",
+    "whole_use_through_failed_use": lambda: b"SCHEMA lib;\nUSE FROM nosuch;\nENTITY a;\nEND_ENTITY;\nEND_SCHEMA;\nSCHEMA s;\nUSE FROM lib;\nENTITY b SUBTYPE OF (zz);\nEND_ENTITY;\nEND_SCHEMA;\n",
+    "whole_reference_through_failed_reference": lambda: b"SCHEMA lib;\nREFERENCE FROM nosuch;\nENTITY a;\nEND_ENTITY;\nEND_SCHEMA;\nSCHEMA s;\nREFERENCE FROM lib;\nENTITY b;\n  v : zz;\nEND_ENTITY;\nEND_SCHEMA;\n",
+    "use_cycle": lambda: b"SCHEMA s1;\nUSE FROM s2;\nENTITY a;\nEND_ENTITY;\nEND_SCHEMA;\nSCHEMA s2;\nUSE FROM s1;\nENTITY b SUBTYPE OF (zz);\nEND_ENTITY;\nEND_SCHEMA;\n",
+    "use_item_cycle": lambda: b"SCHEMA s1;\nUSE FROM s2 (x);\nEND_SCHEMA;\nSCHEMA s2;\nUSE FROM s1 (x);\nEND_SCHEMA;\n",
+    "use_self": lambda: b"SCHEMA s1;\nUSE FROM s1;\nENTITY a SUBTYPE OF (zz);\nEND_ENTITY;\nEND_SCHEMA;\n",
+    "rename_collision": lambda: b"SCHEMA lib;\nENTITY a;\nEND_ENTITY;\nENTITY b;\nEND_ENTITY;\nEND_SCHEMA;\nSCHEMA s;\nUSE FROM lib (a AS c, b AS c);\nENTITY d SUBTYPE OF (c);\nEND_ENTITY;\nEND_SCHEMA;\n",
+    "function_call_undefined": lambda: _sch("FUNCTION f(x : INTEGER) : INTEGER;\n  RETURN (g(x) + h);\nEND_FUNCTION;\n"),
+    "function_wrong_arg_count": lambda: _sch("FUNCTION f(x : INTEGER) : INTEGER;\n  RETURN (f(x, x, x));\nEND_FUNCTION;\n"),
+    "rule_for_undefined": lambda: _sch("RULE r FOR (nosuch);\nWHERE\n  wr1 : TRUE;\nEND_RULE;\n"),
+    "unique_undefined_attr": lambda: _sch("ENTITY a;\n  v : INTEGER;\nUNIQUE\n  ur1 : nosuch;\n  ur2 : SELF\\b.v;\nEND_ENTITY;\n"),
+    "derive_redeclares_unknown": lambda: _sch("ENTITY a;\n  v : INTEGER;\nEND_ENTITY;\nENTITY b SUBTYPE OF (a);\nDERIVE\n  SELF\\a.nosuch : INTEGER := 1;\n  SELF\\zz.v : INTEGER := 2;\nEND_ENTITY;\n"),
+    "supertype_not_listing_subtype": lambda: _sch("ENTITY a SUPERTYPE OF (ONEOF (b));\nEND_ENTITY;\nENTITY b SUBTYPE OF (a);\nEND_ENTITY;\nENTITY c SUBTYPE OF (a);\nEND_ENTITY;\n"),
+    "subtype_not_listing_supertype": lambda: _sch("ENTITY a SUPERTYPE OF (ONEOF (b, c));\nEND_ENTITY;\nENTITY b SUBTYPE OF (a);\nEND_ENTITY;\nENTITY c;\nEND_ENTITY;\n"),
+}
+
+
+# ------------------------------------------------------------------ valid "wide" selects: every underlying kind, several paths
+_KIND_DECLS = {
+    "int": ("TYPE {n} = INTEGER; END_TYPE;", None), "real": ("TYPE {n} = REAL; END_TYPE;", None),
+    "str": ("TYPE {n} = STRING; END_TYPE;", None), "bin": ("TYPE {n} = BINARY; END_TYPE;", None),
+    "enum": ("TYPE {n} = ENUMERATION OF ({n}_x, {n}_y); END_TYPE;", None), "log": ("TYPE {n} = LOGICAL; END_TYPE;", None),
+    "bool": ("TYPE {n} = BOOLEAN; END_TYPE;", None), "ent": ("ENTITY {n};\n  id : INTEGER;\nEND_ENTITY;", None),
+    "list": ("TYPE {n} = LIST [1:?] OF REAL; END_TYPE;", None), "set": ("TYPE {n} = SET [0:?] OF INTEGER; END_TYPE;", None),
+    "bag": ("TYPE {n} = BAG OF STRING; END_TYPE;", None), "arr": ("TYPE {n} = ARRAY [1:3] OF INTEGER; END_TYPE;", None),
+    "num": ("TYPE {n} = NUMBER; END_TYPE;", None),
+}
+# the eight classes non_unique_types_vector() counts, with the member kinds that fall into each
+KIND_CLASSES = [("int",), ("real",), ("str",), ("bin",), ("enum", "log", "bool"), ("ent",), ("list", "set", "bag", "arr"), ("num",)]
+
+
+def wide_select(paths=2, omit=(), nest=1, name="ws", rng=None):
+    """valid schema: a select from which every kind class (except those in `omit`, given as class indices) is reached
+    along `paths` different paths; nest = 0: all members direct, 1: split over `paths` sub-selects, 2: a chain of selects"""
+    decls, groups = [], [[] for _ in range(max(1, paths))]
+    for ci, cls in enumerate(KIND_CLASSES):
+        if ci in omit:
+            continue
+        for p in range(paths):
+            kind = cls[(p if rng is None else rng.randrange(len(cls))) % len(cls)]
+            n = f"{name}_{kind}_{ci}_{p}"
+            decls.append(_KIND_DECLS[kind][0].format(n=n))
+            groups[p].append(n)
+    out = list(decls)
+    if nest == 0:
+        out.append(f"TYPE {name}_top = SELECT ({', '.join(x for g in groups for x in g)}); END_TYPE;")
+    elif nest == 1:
+        for p, g in enumerate(groups):
+            out.append(f"TYPE {name}_part{p} = SELECT ({', '.join(g)}); END_TYPE;")
+        out.append(f"TYPE {name}_top = SELECT ({', '.join(f'{name}_part{p}' for p in range(len(groups)))}); END_TYPE;")
+    else:
+        prev = None
+        for p, g in enumerate(groups):
+            mem = g + ([prev] if prev else [])
+            prev = f"{name}_chain{p}"
+            out.append(f"TYPE {prev} = SELECT ({', '.join(mem)}); END_TYPE;")
+        out.append(f"TYPE {name}_top = SELECT ({prev}); END_TYPE;")
+    out.append(f"ENTITY {name}_holder;\n  v : {name}_top;\n  l : LIST [0:?] OF {name}_top;\nEND_ENTITY;")
+    return _sch("\n".join(out) + "\n", name=f"{name}_schema")
+
+
+def wide_selects():
+    """deterministic family: (tag, data)"""
+    out = []
+    for paths in (1, 2, 3):
+        for nest in (0, 1, 2):
+            out.append((f"wide:p{paths}n{nest}", wide_select(paths, (), nest)))
+    for om in range(8):
+        out.append((f"wide:omit{om}", wide_select(2, (om,), 1)))
+        out.append((f"wide:only{om}", wide_select(2, tuple(i for i in range(8) if i != om), 0)))
+    out.append(("wide:omit_real_aggr", wide_select(2, (1, 6), 2)))
+    return out
